@@ -34,6 +34,8 @@ pub enum Shape {
     FirstClass,
     /// evaluated repeatedly inside a self tail-recursive loop
     Loop,
+    /// binary, right operand a literal, evaluated inside a self tail-recursive loop
+    LoopLiteralRight,
 }
 
 #[derive(Clone, Debug, Serialize, Deserialize)]
@@ -42,6 +44,10 @@ pub struct Item {
     pub args: Vec<Operand>,
     pub shape: Shape,
     pub radix: u32,
+    /// call the defined function through `apply` (a direct top-level call is inlined by the
+    /// compiler and never reaches the function's own compiled / native code)
+    #[serde(default)]
+    pub indirect: bool,
 }
 
 fn pow2(k: u32) -> BigInt {
@@ -153,6 +159,7 @@ fn shapes_for(op: Op, nargs: usize) -> Vec<Shape> {
     if nargs == 2 {
         v.push(Shape::LiteralRight);
         v.push(Shape::LiteralLeft);
+        v.push(Shape::LoopLiteralRight);
     }
     if op.is_comparison() {
         v.push(Shape::BranchCond);
@@ -166,7 +173,7 @@ fn shapes_for(op: Op, nargs: usize) -> Vec<Shape> {
 
 fn with_shape(op: Op, args: Vec<Operand>, radix: u32) -> impl Strategy<Value = Item> {
     let shapes = shapes_for(op, args.len());
-    prop::sample::select(shapes).prop_map(move |shape| Item { op, args: args.clone(), shape, radix })
+    (prop::sample::select(shapes), any::<bool>()).prop_map(move |(shape, indirect)| Item { op, args: args.clone(), shape, radix, indirect })
 }
 
 pub fn item() -> impl Strategy<Value = Item> {
@@ -243,7 +250,40 @@ pub fn item() -> impl Strategy<Value = Item> {
     .prop_map(|a| (Op::ExactIntegerSqrt, vec![a], 10u32));
     let strconv = (prop::sample::select(vec![Op::NumberToString, Op::StringToNumberRoundTrip]), exact_operand(), prop::sample::select(vec![2u32, 8, 10, 16]))
         .prop_map(|(op, a, r)| (op, vec![a], r));
+    // pairs whose exact result crosses (or just misses) the fixnum boundary: the place where
+    // every specialised add/sub/mul path has its own overflow promotion
+    let crossing = (
+        prop::sample::select(vec![Op::Add, Op::Sub, Op::Mul]),
+        prop::sample::select(vec![62u32, 63, 63, 63, 64]),
+        -3i64..=3,
+        any::<bool>(),
+        -3i64..=3,
+        any::<bool>(),
+    )
+        .prop_map(|(op, k, d, neg, small, swap)| {
+            let mut a = pow2(k) + BigInt::from(d);
+            if neg {
+                a = -a;
+            }
+            let (a, b) = if op == Op::Mul {
+                // a ~ 2^(k-1) or 2^(k/2) times a small factor
+                if swap {
+                    (pow2(k - 1) + BigInt::from(d), BigInt::from(if small == 0 { 2 } else { small }))
+                } else {
+                    (pow2(k / 2) + BigInt::from(d), pow2(k - k / 2) + BigInt::from(small))
+                }
+            } else {
+                (a, BigInt::from(small))
+            };
+            let (x, y) = (Operand::Int(a.to_string()), Operand::Int(b.to_string()));
+            if swap && op != Op::Mul {
+                (op, vec![y, x], 10u32)
+            } else {
+                (op, vec![x, y], 10u32)
+            }
+        });
     let base = prop_oneof![
+        4 => crossing,
         6 => arith,
         3 => intdiv,
         4 => cmp,
@@ -294,29 +334,43 @@ pub fn render(it: &Item, k: usize) -> String {
         }
     };
     let f = format!("f{}", k);
+    // (f a b) or (apply f (list a b))
+    let callf = |args: &str| -> String {
+        if it.indirect {
+            format!("(apply {} (list {}))", f, args)
+        } else {
+            format!("({} {})", f, args)
+        }
+    };
     match it.shape {
         Shape::AllLiteral => app(&lits),
-        Shape::ViaParams => format!("(define ({} {}) {})\n({} {})", f, ps.join(" "), app(&ps), f, lits.join(" ")),
-        Shape::LiteralRight => format!("(define ({} p0) {})\n({} {})", f, app(&[ps[0].clone(), lits[1].clone()]), f, lits[0]),
-        Shape::LiteralLeft => format!("(define ({} p1) {})\n({} {})", f, app(&[lits[0].clone(), ps[1].clone()]), f, lits[1]),
+        Shape::ViaParams => format!("(define ({} {}) {})\n{}", f, ps.join(" "), app(&ps), callf(&lits.join(" "))),
+        Shape::LiteralRight => format!("(define ({} p0) {})\n{}", f, app(&[ps[0].clone(), lits[1].clone()]), callf(&lits[0])),
+        Shape::LiteralLeft => format!("(define ({} p1) {})\n{}", f, app(&[lits[0].clone(), ps[1].clone()]), callf(&lits[1])),
+        Shape::LoopLiteralRight => format!(
+            "(define ({} n acc p0) (if (= n 0) acc ({} (- n 1) {} p0)))\n{}",
+            f,
+            f,
+            app(&[ps[0].clone(), lits[1].clone()]),
+            callf(&format!("3 #f {}", lits[0]))
+        ),
         Shape::Locals => {
             let xs: Vec<String> = (0..n).map(|i| format!("x{}", i)).collect();
             let binds: Vec<String> = (0..n).map(|i| format!("(x{} p{})", i, i)).collect();
-            format!("(define ({} {}) (let ({}) {}))\n({} {})", f, ps.join(" "), binds.join(" "), app(&xs), f, lits.join(" "))
+            format!("(define ({} {}) (let ({}) {}))\n{}", f, ps.join(" "), binds.join(" "), app(&xs), callf(&lits.join(" ")))
         }
-        Shape::BranchCond => format!("(define ({} {}) (if {} 'yes 'no))\n({} {})", f, ps.join(" "), app(&ps), f, lits.join(" ")),
-        Shape::NonTail => format!("(define ({} {}) (car (list {} 0)))\n({} {})", f, ps.join(" "), app(&ps), f, lits.join(" ")),
+        Shape::BranchCond => format!("(define ({} {}) (if {} 'yes 'no))\n{}", f, ps.join(" "), app(&ps), callf(&lits.join(" "))),
+        Shape::NonTail => format!("(define ({} {}) (car (list {} 0)))\n{}", f, ps.join(" "), app(&ps), callf(&lits.join(" "))),
         Shape::Apply => format!("(define ({} {}) (apply {} (list {})))\n({} {})", f, ps.join(" "), opn, ps.join(" "), f, lits.join(" ")),
         Shape::FirstClass => format!("(define ({} g {}) (g {}))\n({} {} {})", f, ps.join(" "), ps.join(" "), f, opn, lits.join(" ")),
         Shape::Loop => format!(
-            "(define ({} n acc {}) (if (= n 0) acc ({} (- n 1) {} {})))\n({} 3 #f {})",
+            "(define ({} n acc {}) (if (= n 0) acc ({} (- n 1) {} {})))\n{}",
             f,
             ps.join(" "),
             f,
             app(&ps),
             ps.join(" "),
-            f,
-            lits.join(" ")
+            callf(&format!("3 #f {}", lits.join(" ")))
         ),
     }
 }
